@@ -187,10 +187,14 @@ def build_args(desc: dict[str, Any], recipe: list[Any], variant: int, profile: s
         positive = sym is None or sym.is_positive or sym.is_nonnegative or True
         if sym is not None and sym.is_positive is None and sym.is_nonnegative is None and sym.is_real and sgn == 0:
             positive = False
+        if profile == "tiny" and sym is not None and sym.is_positive is None and sym.is_nonnegative is None and sgn % 2 == 0:
+            positive = False  # tiny negative magnitudes: symbols without a sign assumption may be negative
         if not positive:
             val = -val
         ann = p["ann"]
         dv = _dimvec(p["dim"])
+        if profile == "tiny" and dv is not None and not dv.is_dimensionless:
+            val = val * sympy.Rational(1, 10**12)
         if profile == "micro" and dv is not None and dv.is_numeric():
             shift = sum(e * m for e, m in zip(dv, MICRO))
             val = val * sympy.Integer(10)**sympy.floor(shift)
@@ -536,7 +540,7 @@ def _judge(desc: dict[str, Any], recipe: list[Any], profile: str = "macro") -> t
         tol = sympy.Float("1e-9") * sc
         if abs(res) > tol:
             tol = tol + sympy.Float("1e-10") * _sensitivity(eq, sub, qsub, res)
-        if abs(res) > tol and _ill_conditioned(eq, sub, qsub, sc):
+        if abs(res) > tol and (_ill_conditioned(eq, sub, qsub, sc) or _perturbation_sensitive(desc, names, args_a, na)):
             info["residual_skipped"] = "ill-conditioned-in-double-precision"
             return out, info
     except _Hang:
@@ -755,6 +759,17 @@ def _shard(task: dict[str, Any]) -> Recorder:
                     res2, info2 = judge(desc, recipe, profile="micro")
                     if info2.get("status") == "ok":
                         res, info, profile = res2, info2, "micro"
+                if r_i == 0 or task.get("tiny_all"):
+                    # additional attempt: every dimensional magnitude 1e-12 times smaller, negative signs allowed
+                    res3, info3 = judge(desc, recipe, profile="tiny")
+                    if info3.get("status") == "ok":
+                        rec.count("profile:tiny-returned")
+                        for key, what in res3:
+                            rec.violation(key, what, {"module": modname, "function": fname, "recipe": recipe, "profile": "tiny"})
+                        rec.case({"f": site, "r": recipe, "p": "tiny"}, nontrivial=bool(info3.get("noncoherent")) and not info3.get("result_zero"),
+                            labels=["profile:tiny", "tier:" + str(info3.get("tier"))])
+                    elif info3.get("status") == "hang":
+                        rec.inconclusive += 1
                 status = info.get("status", "ok")
                 labels = ["status:" + status.split(":")[0], "profile:" + profile]
                 if status == "hang":
@@ -787,7 +802,7 @@ def run(ctx: Ctx) -> None:
     kmax = ctx.pick(3, 6)
     nchunks = 48
     chunks = [mods[i::nchunks] for i in range(nchunks)]
-    tasks = [{"mods": c, "k": k, "kmax": kmax, "seed": ctx.seed * 1000 + i} for i, c in enumerate(chunks)]
+    tasks = [{"mods": c, "k": k, "kmax": kmax, "seed": ctx.seed * 1000 + i, "tiny_all": False} for i, c in enumerate(chunks)]
     for status, val in run_tasks(_shard, tasks, timeout=ctx.pick(900, 3600)):
         if status == "timeout":
             ctx.inconclusive += 1
